@@ -52,7 +52,7 @@ struct Found {
 
 const TOKENS: &[&str] = &[
     "Rout:P", "Rout:short", "Rout:full", "Rout:eof", "Rerr:P", "Rerr:eof", "WI:P", "WI:full", "WI:partial", "WT:P", "WT:exit0", "WT:exit1",
-    "WT:exit255", "WT:sig15", "WT:sig9", "Cout:part", "Cout:all", "CI:full", "CI:short", "CX", "CL", "WI:epipe",
+    "WT:exit255", "WT:sig15", "WT:sig9", "WO:P", "WO:exit1", "WO:sig9", "Cout:part", "Cout:all", "CI:full", "CI:short", "CX", "CL", "WI:epipe",
 ];
 
 fn drivers() -> Vec<Drv> {
@@ -63,83 +63,125 @@ fn drivers() -> Vec<Drv> {
     }
 }
 
-fn run_check(args: vcore::Args) -> ! {
-    let tier = args.tier;
-    let rep = Report::new(&args.property, tier);
-    let fams = families::families(tier);
-    let drvs = drivers();
+/// which wait implementation this binary was built with
+const VARIANT: &str = if cfg!(feature = "pidfd") { "pidfd" } else { "pool" };
+
+/// Everything one exploration produced; serialisable, so that the pidfd build can run as a
+/// sub-process of the main check and have its results merged.
+#[derive(Default)]
+struct Agg {
+    plans: vcore::serde_json::Map<String, vcore::Value>,
+    executions: u64,
+    steps: u64,
+    outcomes: std::collections::BTreeSet<String>,
+    counters: BTreeMap<String, u64>,
+    samples: Vec<vcore::Value>,
+    /// (key, what, replay, occurrences)
+    violations: Vec<(String, String, vcore::Value, u64)>,
+    nondet: Vec<String>,
+    machinery: Vec<String>,
+    caps: Vec<String>,
+}
+
+impl Agg {
+    fn to_json(&self) -> vcore::Value {
+        json!({
+            "plans": self.plans, "executions": self.executions, "steps": self.steps,
+            "outcomes": self.outcomes.iter().collect::<Vec<_>>(), "counters": self.counters, "samples": self.samples,
+            "violations": self.violations.iter().map(|(k, w, r, c)| json!({"key": k, "what": w, "replay": r, "count": c})).collect::<Vec<_>>(),
+            "nondet": self.nondet, "machinery": self.machinery, "caps": self.caps,
+        })
+    }
+
+    fn from_json(v: &vcore::Value) -> Agg {
+        let strs = |x: &vcore::Value| x.as_array().map(|a| a.iter().filter_map(|s| s.as_str().map(String::from)).collect::<Vec<_>>()).unwrap_or_default();
+        Agg {
+            plans: v["plans"].as_object().cloned().unwrap_or_default(),
+            executions: v["executions"].as_u64().unwrap_or(0),
+            steps: v["steps"].as_u64().unwrap_or(0),
+            outcomes: strs(&v["outcomes"]).into_iter().collect(),
+            counters: v["counters"].as_object().map(|m| m.iter().map(|(k, v)| (k.clone(), v.as_u64().unwrap_or(0))).collect()).unwrap_or_default(),
+            samples: v["samples"].as_array().cloned().unwrap_or_default(),
+            violations: v["violations"]
+                .as_array()
+                .map(|a| {
+                    a.iter()
+                        .map(|x| (x["key"].as_str().unwrap_or("").to_string(), x["what"].as_str().unwrap_or("").to_string(), x["replay"].clone(), x["count"].as_u64().unwrap_or(1)))
+                        .collect()
+                })
+                .unwrap_or_default(),
+            nondet: strs(&v["nondet"]),
+            machinery: strs(&v["machinery"]),
+            caps: strs(&v["caps"]),
+        }
+    }
+}
+
+fn explore_all(tier: Tier, fams: &[plan::Family], drvs: &[Drv]) -> Agg {
+    let t0 = std::time::Instant::now();
+    let mut agg = Agg::default();
     // 1. enumerate all plans (pure)
     let mut plans: Vec<Plan> = Vec::new();
-    let mut per_family = serde_json_map();
-    for f in &fams {
-        for &d in &drvs {
+    for f in fams {
+        for &d in drvs {
             let (p, capped) = plan::all_plans(f, d, u64::MAX);
             if capped {
-                rep.cap_hit(&format!("plan enumeration of family {} capped", f.name));
+                agg.caps.push(format!("plan enumeration of family {} capped", f.name));
             }
-            per_family.insert(format!("{}:{}", f.name, d.name()), json!(p.len()));
+            agg.plans.insert(format!("{VARIANT}:{}:{}", f.name, d.name()), json!(p.len()));
             plans.extend(p);
         }
+    }
+    let timing = std::env::var_os("C20_TIMING").is_some();
+    if timing {
+        eprintln!("timing[{VARIANT}]: {} plans enumerated after {:.2}s", plans.len(), t0.elapsed().as_secs_f64());
     }
     // development aid: C20_STRIDE=k runs every k-th plan only (never exhaustive, recorded as a cap)
     if let Some(k) = std::env::var("C20_STRIDE").ok().and_then(|s| s.parse::<usize>().ok()) {
         let off = std::env::var("C20_OFFSET").ok().and_then(|s| s.parse::<usize>().ok()).unwrap_or(0);
         plans = plans.into_iter().enumerate().filter(|(i, _)| i % k == off % k).map(|(_, p)| p).collect();
-        rep.cap_hit(&format!("C20_STRIDE={k}: only every {k}-th plan executed"));
+        agg.caps.push(format!("C20_STRIDE={k}: only every {k}-th plan executed"));
     }
-    rep.extra(
-        "bounds",
-        json!({
-            "pipe_capacity": plan::CAP,
-            "families": fams.iter().map(|f| json!({
-                "name": f.name, "depth": f.depth, "letters": format!("{:?}", f.letters),
-                "child_write_sizes": f.sizes, "read_chunks": f.chunks, "write_lens": f.wlens, "child_read_lens": f.rlens,
-                "exit_modes": if f.modes.is_empty() { "rotating over exit0,exit1,exit255,SIGTERM,SIGKILL".to_string() } else { format!("{:?}", f.modes) },
-                "max_child_writes_per_stream": f.max_child_writes, "managed_reads": f.managed,
-            })).collect::<Vec<_>>(),
-            "drivers": drvs.iter().map(|d| d.name()).collect::<Vec<_>>(),
-            "plans": per_family,
-            "wait_path": if cfg!(feature = "pidfd") { "pidfd (PollOnce on the pidfd, then wait)" } else { "blocking pool (spawn_blocking(child.wait()))" },
-            "watchdog_ms": harness::WATCHDOG.as_millis() as u64,
-        }),
-    );
-    rep.rule(
-        "every plan = (family, driver, [exit mode,] step sequence of length <= depth with a 'stop' alternative at every position, parameters chosen at first use) \
-         is enumerated by vcore::explore over a pure planner (enabledness depends on the commanded history only) and executed once on the real compio-process/\
-         compio-runtime/compio-driver code with a fresh runtime and a fresh child process, followed by a canonical epilogue (deliver everything, end the child, read \
-         to EOF, wait). states = executions; transitions = harness steps incl. epilogue; distinct_nontrivial = distinct sequences of per-step observation classes",
-    );
-    rep.assume("the child's stdio descriptors are O_NONBLOCK on the child's side only; the child acts only on harness commands (control socket) and acks each");
-    rep.assume("Linux pipe semantics (capacity 65536, POLLOUT = a free slot) are the real kernel's, not modelled");
-    for t in ["Rout:P", "Rout:short", "Rout:full", "Rout:eof", "Rerr:eof", "WI:P", "WI:full", "WT:P", "WT:exit0", "WT:exit255", "WT:sig15", "WT:sig9", "Cout:part", "CI:full"] {
-        rep.must_reach(t);
-    }
-
     let found: Mutex<BTreeMap<String, Found>> = Mutex::new(BTreeMap::new());
-    let mach: Mutex<Vec<String>> = Mutex::new(Vec::new());
+    let shared: Mutex<Agg> = Mutex::new(agg);
     let nthreads = vcore::threads();
+    // a run-away guard, far above the expected wall time; hitting it is recorded as a cap
+    let budget = std::env::var("C20_BUDGET_S").ok().and_then(|s| s.parse::<f64>().ok()).unwrap_or(tier.pick(240.0, 1500.0));
+    let skipped = AtomicUsize::new(0);
     vcore::par_for_each_n(&plans, nthreads, |_, p| {
-        if mach.lock().unwrap().len() > 20 {
+        if shared.lock().unwrap().machinery.len() > 20 {
+            return;
+        }
+        if t0.elapsed().as_secs_f64() > budget {
+            skipped.fetch_add(1, Ordering::Relaxed);
             return;
         }
         let r = with_worker(|w| harness::execute(w, p));
         if let Some(m) = r.machinery {
-            mach.lock().unwrap().push(m);
+            shared.lock().unwrap().machinery.push(m);
             // the worker may be in an undefined state: start over with a new one
             drop_worker();
             return;
         }
-        rep.add_execution(r.steps);
-        rep.outcome(r.sig.clone());
-        for t in r.sig.split(' ') {
-            if TOKENS.contains(&t) {
-                rep.count(t, 1);
+        {
+            let mut a = shared.lock().unwrap();
+            a.executions += 1;
+            a.steps += r.steps;
+            for t in r.sig.split(' ') {
+                if TOKENS.contains(&t) {
+                    *a.counters.entry(t.to_string()).or_insert(0) += 1;
+                }
+            }
+            for c in &r.counters {
+                *a.counters.entry(c.to_string()).or_insert(0) += 1;
+            }
+            if a.outcomes.len() < 50_000 {
+                a.outcomes.insert(format!("{VARIANT} {}", r.sig));
+            }
+            if a.samples.len() < 4 {
+                a.samples.push(json!({"plan": p.describe(), "wait_path": VARIANT, "history": r.hist}));
             }
         }
-        for c in &r.counters {
-            rep.count(c, 1);
-        }
-        rep.sample(6, || json!({"plan": p.describe(), "history": r.hist}));
         if !r.vios.is_empty() {
             let mut g = found.lock().unwrap();
             for (k, w) in r.vios {
@@ -156,23 +198,23 @@ fn run_check(args: vcore::Args) -> ! {
             }
         }
     });
-    // thread-local workers of the pool threads are gone with their threads
-
-    let machs = mach.into_inner().unwrap();
-    if !machs.is_empty() {
-        for m in machs.iter().take(5) {
-            eprintln!("MACHINERY-ERROR: {m}");
-        }
-        harness::cleanup_tmp();
-        vcore::machinery_error(&format!("{} execution(s) failed in the machinery", machs.len()));
+    let mut agg = shared.into_inner().unwrap();
+    if timing {
+        eprintln!("timing[{VARIANT}]: {} executions done after {:.2}s", agg.executions, t0.elapsed().as_secs_f64());
     }
-
+    let skipped = skipped.load(Ordering::Relaxed);
+    if skipped > 0 {
+        agg.caps.push(format!("wall-time guard of {budget} s reached: {skipped} of {} plans not executed", plans.len()));
+    }
+    if !agg.machinery.is_empty() {
+        return agg;
+    }
     // 2. every violation class is re-executed twice from its recorded choice list (fresh subject
     //    thread, fresh runtime, fresh child); it is reported only if it shows up both times
     let found = found.into_inner().unwrap();
-    let mut nondet = Vec::new();
     for (key, f) in &found {
         let mut seen = 0;
+        harness::reset_watchdog();
         for _ in 0..2 {
             let r = with_worker(|w| harness::execute(w, &f.plan));
             drop_worker();
@@ -181,20 +223,140 @@ fn run_check(args: vcore::Args) -> ! {
             }
         }
         if seen < 2 {
-            nondet.push(format!("{key} (reproduced {seen}/2) plan {}", f.plan.describe()));
+            agg.nondet.push(format!("{key} (reproduced {seen}/2) plan {}", f.plan.describe()));
             continue;
         }
         let mut replay = f.plan.to_json();
         replay["tier"] = json!(tier.name());
-        rep.violation(Violation {
-            key: key.clone(),
-            what: format!("{} | minimal history found: {} | trace: {}", f.what, f.plan.describe(), f.hist.join(" ; ")),
+        replay["wait_path"] = json!(VARIANT);
+        let key = if VARIANT == "pidfd" { format!("pidfd:{key}") } else { key.clone() };
+        agg.violations.push((
+            key,
+            format!("{} | shortest failing plan found: {} | trace: {}", f.what, f.plan.describe(), short_trace(&f.hist)),
             replay,
-        });
-        rep.count(&format!("violating_executions[{key}]"), f.count);
+            f.count,
+        ));
     }
     drop_worker();
+    agg
+}
+
+fn pidfd_binary() -> Option<std::path::PathBuf> {
+    if VARIANT == "pidfd" {
+        return None;
+    }
+    let p = match std::env::var_os("C20_PIDFD_BIN") {
+        Some(p) => std::path::PathBuf::from(p),
+        None => vcore::verif_root().join(".target/e_c20_pidfd/release/e_c20"),
+    };
+    p.exists().then_some(p)
+}
+
+/// sub-process mode of the pidfd build: only the families in which `wait` matters
+fn run_sub(args: vcore::Args) -> ! {
+    let fams: Vec<plan::Family> =
+        families::families(args.tier).into_iter().filter(|f| matches!(f.name, "status" | "output")).collect();
+    let agg = explore_all(args.tier, &fams, &drivers());
     harness::cleanup_tmp();
+    println!("{}", agg.to_json());
+    std::process::exit(0)
+}
+
+fn run_check(args: vcore::Args) -> ! {
+    let tier = args.tier;
+    let rep = Report::new(&args.property, tier);
+    let fams = families::families(tier);
+    let drvs = drivers();
+    rep.rule(
+        "every plan = (family, driver, [exit mode,] step sequence of length <= depth with a 'stop' alternative at every position, parameters chosen at first use) \
+         is enumerated by vcore::explore over a pure planner (enabledness depends on the commanded history only) and executed once on the real compio-process/\
+         compio-runtime/compio-driver code with a fresh runtime and a fresh child process, followed by a canonical epilogue (deliver everything, end the child, read \
+         to EOF, wait). states = executions; transitions = harness steps incl. epilogue; distinct_nontrivial = distinct sequences of per-step observation classes",
+    );
+    rep.assume("the child's stdio descriptors are O_NONBLOCK on the child's side only; the child acts only on harness commands (control socket) and acks each");
+    rep.assume("Linux pipe semantics (capacity 65536, POLLOUT = a free slot) are the real kernel's, not modelled");
+    for t in ["Rout:P", "Rout:short", "Rout:full", "Rout:eof", "Rerr:eof", "WI:P", "WI:full", "WT:P", "WT:exit0", "WT:exit255", "WT:sig15", "WT:sig9", "WO:P", "WO:sig9", "Cout:part", "CI:full"] {
+        rep.must_reach(t);
+    }
+    let mut aggs = vec![explore_all(tier, &fams, &drvs)];
+    harness::cleanup_tmp();
+    // the pidfd wait path (compio-process feature linux_pidfd, nightly-gated) lives in a second build
+    let mut wait_paths = vec![VARIANT.to_string()];
+    match pidfd_binary() {
+        Some(bin) if aggs[0].machinery.is_empty() => {
+            let out = std::process::Command::new(&bin)
+                .arg("C20")
+                .arg(tier.name())
+                .arg("--sub")
+                .stderr(std::process::Stdio::inherit())
+                .output()
+                .unwrap_or_else(|e| vcore::machinery_error(&format!("cannot run {bin:?}: {e}")));
+            let text = String::from_utf8_lossy(&out.stdout);
+            let line = text.lines().rev().find(|l| l.starts_with('{')).unwrap_or("");
+            match vcore::serde_json::from_str::<vcore::Value>(line) {
+                Ok(v) => {
+                    aggs.push(Agg::from_json(&v));
+                    wait_paths.push("pidfd".into());
+                }
+                Err(e) => vcore::machinery_error(&format!("pidfd sub-run of {bin:?} gave no result ({e}); exit status {:?}", out.status)),
+            }
+        }
+        Some(_) => {}
+        None => rep.assume(
+            "the pidfd wait path (compio-process feature linux_pidfd) was NOT explored in this run: no binary built with \
+             `RUSTC_BOOTSTRAP=1 cargo build --release --features pidfd` found at $C20_PIDFD_BIN or <VERIF_ROOT>/.target/e_c20_pidfd/release/e_c20",
+        ),
+    }
+    let mut plans = serde_json_map();
+    let mut machinery = Vec::new();
+    let mut nondet = Vec::new();
+    for a in &aggs {
+        plans.extend(a.plans.clone());
+        rep.evaluations.fetch_add(a.executions, Ordering::Relaxed);
+        rep.traces_validated.fetch_add(a.executions, Ordering::Relaxed);
+        rep.transitions.fetch_add(a.steps, Ordering::Relaxed);
+        for o in &a.outcomes {
+            rep.outcome(o.clone());
+        }
+        for (k, n) in &a.counters {
+            rep.count(k, *n);
+        }
+        for s in a.samples.iter().take(3) {
+            rep.sample(6, || s.clone());
+        }
+        for c in &a.caps {
+            rep.cap_hit(c);
+        }
+        for (key, what, replay, count) in &a.violations {
+            rep.violation(Violation { key: key.clone(), what: what.clone(), replay: replay.clone() });
+            rep.count(&format!("violating_executions[{key}]"), *count);
+        }
+        machinery.extend(a.machinery.iter().cloned());
+        nondet.extend(a.nondet.iter().cloned());
+    }
+    rep.extra(
+        "bounds",
+        json!({
+            "pipe_capacity": plan::CAP,
+            "families": fams.iter().map(|f| json!({
+                "name": f.name, "depth": f.depth, "letters": format!("{:?}", f.letters),
+                "child_write_sizes": f.sizes, "read_chunks": f.chunks, "write_lens": f.wlens, "child_read_lens": f.rlens,
+                "exit_modes": if f.modes.is_empty() { "rotating over exit0,exit1,exit255,SIGTERM,SIGKILL".to_string() } else { format!("{:?}", f.modes) },
+                "max_child_writes_per_stream": f.max_child_writes, "max_polls_per_future_kind": f.max_polls,
+                "managed_reads": f.managed, "wait_with_output": f.output,
+            })).collect::<Vec<_>>(),
+            "drivers": drvs.iter().map(|d| d.name()).collect::<Vec<_>>(),
+            "plans": plans,
+            "wait_paths": wait_paths,
+            "watchdog_ms": harness::WATCHDOG.as_millis() as u64,
+        }),
+    );
+    if !machinery.is_empty() {
+        for m in machinery.iter().take(5) {
+            eprintln!("MACHINERY-ERROR: {m}");
+        }
+        vcore::machinery_error(&format!("{} execution(s) failed in the machinery", machinery.len()));
+    }
     if !nondet.is_empty() {
         for n in &nondet {
             eprintln!("NONDETERMINISM: {n}");
@@ -202,6 +364,23 @@ fn run_check(args: vcore::Args) -> ! {
         vcore::machinery_error("violation(s) did not reproduce from their choice lists");
     }
     rep.finish()
+}
+
+/// the enumerated part of the history, and of the epilogue only what surrounds the first violation
+fn short_trace(hist: &[String]) -> String {
+    let epi = hist.iter().position(|h| h.starts_with("-- epilogue")).unwrap_or(hist.len());
+    let vio = hist.iter().position(|h| h.trim_start().starts_with("!!")).unwrap_or(hist.len());
+    let mut out: Vec<String> = hist[..epi.min(hist.len())].iter().map(|h| h.trim().to_string()).collect();
+    if vio >= epi {
+        out.push("(epilogue)".into());
+        let lo = vio.saturating_sub(6).max(epi + 1).min(hist.len());
+        if lo > epi + 1 {
+            out.push("...".into());
+        }
+        let hi = (vio + 1).min(hist.len());
+        out.extend(hist[lo..hi].iter().map(|h| h.trim().to_string()));
+    }
+    out.join(" ; ")
 }
 
 fn serde_json_map() -> vcore::serde_json::Map<String, vcore::Value> {
@@ -215,6 +394,21 @@ fn run_replay(args: vcore::Args) -> ! {
         vcore::serde_json::from_slice(&bytes).unwrap_or_else(|e| vcore::machinery_error(&format!("replay file does not parse: {e}")));
     let r = if v.get("replay").is_some() { &v["replay"] } else { &v };
     let tier = r["tier"].as_str().map(Tier::parse).unwrap_or(args.tier);
+    if let Some(wp) = r["wait_path"].as_str() {
+        if wp != VARIANT {
+            // recorded by the other build: hand over
+            let bin = if wp == "pidfd" { pidfd_binary() } else { None };
+            let Some(bin) = bin else { vcore::machinery_error(&format!("replay needs the {wp} build of e_c20, which was not found")) };
+            let st = std::process::Command::new(bin)
+                .arg("C20")
+                .arg(tier.name())
+                .arg("--replay")
+                .arg(&path)
+                .status()
+                .unwrap_or_else(|e| vcore::machinery_error(&format!("cannot run the {wp} build: {e}")));
+            std::process::exit(st.code().unwrap_or(2));
+        }
+    }
     let fam_name = r["family"].as_str().unwrap_or("");
     let drv = match r["driver"].as_str() {
         Some("iour") => Drv::IoUring,
@@ -258,8 +452,15 @@ fn main() {
     if argv.len() >= 3 && argv[1] == "--child" {
         child::main(&argv[2]);
     }
+    if argv.len() >= 4 && argv[1] == "--demo-duplex" {
+        demo_duplex(&argv[2], argv[3].parse().unwrap_or(1 << 20));
+        return;
+    }
     if argv.len() >= 2 && argv[1] == "--count" {
         for tier in [Tier::Quick, Tier::Thorough] {
+            if argv.len() >= 3 && argv[2] != tier.name() {
+                continue;
+            }
             let mut total = 0;
             for f in families::families(tier) {
                 let (p, capped) = plan::all_plans(&f, Drv::IoUring, 50_000_000);
@@ -277,7 +478,61 @@ fn main() {
     }
     if args.replay.is_some() {
         run_replay(args)
+    } else if args.rest.iter().any(|a| a == "--sub") {
+        run_sub(args)
     } else {
         run_check(args)
     }
+}
+
+/// Stand-alone illustration of the finding on the polling driver (not part of the check):
+/// `e_c20 --demo-duplex <poll|iour> <bytes>` pipes `bytes` through `cat` with the usual
+/// "write everything to stdin while reading stdout to the end" program.
+fn demo_duplex(drv: &str, n: usize) {
+    use compio_io::{AsyncReadExt, AsyncWriteExt};
+    let mut pb = compio_driver::ProactorBuilder::new();
+    pb.driver_type(if drv == "poll" { compio_driver::DriverType::Poll } else { compio_driver::DriverType::IoUring });
+    let rt = compio_runtime::Runtime::builder().with_proactor(pb).build().unwrap();
+    std::thread::spawn(|| {
+        std::thread::sleep(std::time::Duration::from_secs(5));
+        println!("DEADLOCK: no progress for 5 s");
+        std::process::exit(3);
+    });
+    let got = rt.block_on(async move {
+        let mut cmd = compio_process::Command::new("cat");
+        cmd.stdin(std::process::Stdio::piped()).unwrap();
+        cmd.stdout(std::process::Stdio::piped()).unwrap();
+        let mut child = cmd.spawn().unwrap();
+        let mut stdin = child.stdin.take().unwrap();
+        let mut stdout = child.stdout.take().unwrap();
+        let w = async move {
+            stdin.write_all(vec![7u8; n]).await.0.unwrap();
+            drop(stdin);
+        };
+        let r = async move { stdout.read_to_end(Vec::new()).await.1.len() };
+        let (_, got) = futures_join(w, r).await;
+        let st = child.wait().await.unwrap();
+        (got, st)
+    });
+    println!("{drv}: piped {n} bytes through cat, got {} back, status {:?}", got.0, got.1);
+}
+
+async fn futures_join<A: std::future::Future, B: std::future::Future>(a: A, b: B) -> (A::Output, B::Output) {
+    let mut a = std::pin::pin!(a);
+    let mut b = std::pin::pin!(b);
+    let (mut ra, mut rb) = (None, None);
+    std::future::poll_fn(|cx| {
+        if ra.is_none() {
+            if let std::task::Poll::Ready(x) = a.as_mut().poll(cx) {
+                ra = Some(x);
+            }
+        }
+        if rb.is_none() {
+            if let std::task::Poll::Ready(x) = b.as_mut().poll(cx) {
+                rb = Some(x);
+            }
+        }
+        if ra.is_some() && rb.is_some() { std::task::Poll::Ready((ra.take().unwrap(), rb.take().unwrap())) } else { std::task::Poll::Pending }
+    })
+    .await
 }
